@@ -1,6 +1,6 @@
 (* Iso/Check.v — theorems over the REGENERATED table Iso/Generated.v: which
    package-level variables are written outside package initialisers. *)
-From Coq Require Import List String Bool.
+From Coq Require Import List String Bool Arith.
 From GV Require Import Iso.Generated.
 Import ListNotations.
 Open Scope string_scope.
@@ -60,4 +60,39 @@ Proof.
   apply andb_true_iff in E. destruct E as [E1 E2]. apply String.eqb_eq in E1. subst v'.
   exists d, i. split; [exact Hin|].
   destruct d; [|left; discriminate]. destruct i; [discriminate|right; discriminate].
+Qed.
+
+(* ---- the table covers every package-level variable of every loaded package ---- *)
+
+Definition scope_vars : list string := List.concat (map snd all_vars).
+Definition table_vars : list string := map row_var shared_writes.
+
+Lemma coverage_ok :
+  forallb (fun v => mem_str v table_vars) scope_vars &&
+  Nat.eqb (List.length scope_vars) var_count && Nat.eqb (List.length all_vars) package_count &&
+  Nat.ltb 0 var_count = true.
+Proof. vm_compute. reflexivity. Qed.
+
+(* every variable the type checker sees in the scope of a loaded module package has a row
+   in [shared_writes] (so it is classified by [no_shared_writers_partial]); the counts are
+   the ones the translator reports, and the table is not empty *)
+Theorem all_vars_classified :
+  (forall p vs v, In (p, vs) all_vars -> In v vs ->
+     exists direct indirect, In (v, direct, indirect) shared_writes) /\
+  List.length scope_vars = var_count /\ List.length all_vars = package_count /\ (0 < var_count)%nat.
+Proof.
+  pose proof coverage_ok as H.
+  apply andb_true_iff in H; destruct H as [H H4]. apply andb_true_iff in H; destruct H as [H H3].
+  apply andb_true_iff in H; destruct H as [H1 H2].
+  split; [|split; [|split]].
+  - intros p vs v Hp Hv. rewrite forallb_forall in H1.
+    assert (Hs : In v scope_vars).
+    { unfold scope_vars. apply in_concat. exists vs. split; [|exact Hv].
+      apply in_map_iff. exists (p, vs). split; [reflexivity|exact Hp]. }
+    specialize (H1 v Hs). apply mem_str_In in H1. unfold table_vars in H1.
+    apply in_map_iff in H1. destruct H1 as ([[v' d] i] & E & Hin). unfold row_var in E; cbn in E. subst v'.
+    now exists d, i.
+  - apply Nat.eqb_eq; exact H2.
+  - apply Nat.eqb_eq; exact H3.
+  - apply Nat.ltb_lt; exact H4.
 Qed.
